@@ -24,6 +24,11 @@ func execLongestPath(g *graph.DGraph) {
 	for _, n := range nodes {
 		followLongestPath(n, height, &nlayers)
 	}
+	// layers can be assigned only now that the length of the longest path is known:
+	// a node sits as many layers above the bottom one as the longest path from it to a sink is long
+	for _, n := range g.Nodes {
+		n.Layer = nlayers - height[n]
+	}
 }
 
 func followLongestPath(n *graph.Node, height graph.NodeIntMap, nlayers *int) int {
@@ -41,7 +46,6 @@ func followLongestPath(n *graph.Node, height graph.NodeIntMap, nlayers *int) int
 		nodeh = max(nodeh, h+e.Delta)
 	}
 	*nlayers = max(*nlayers, nodeh)
-	n.Layer = *nlayers - nodeh
 	height[n] = nodeh
 	return nodeh
 }
